@@ -208,13 +208,15 @@ def ase_frame(path, symbols, masses, pos, vel, cell=30.0):
     return at
 
 
-def make_turtlemd(root, masses, pos, temperature=1.0, boltzmann=1.0, integrator="VelocityVerlet", subcycles=1, timestep=0.01, dim=3):
+def make_turtlemd(root, masses, pos, temperature=1.0, boltzmann=1.0, integrator="VelocityVerlet", subcycles=1, timestep=0.01, dim=3, user_seed=None):
     from infretis.classes.engines.turtlemdengine import TurtleMDEngine
 
     os.makedirs(root, exist_ok=True)
     integ = {"class": integrator, "settings": {}}
     if integrator.lower() == "langevininertia":
         integ["settings"] = {"gamma": 0.3, "beta": 1.0 / (boltzmann * temperature)}
+        if user_seed is not None:
+            integ["settings"]["seed"] = user_seed  # a stray user setting must not replace the job's seed
     n = len(masses)
     eng = TurtleMDEngine(
         timestep, subcycles, temperature, boltzmann, integ,
